@@ -17,6 +17,7 @@ mod c11;
 mod c03;
 mod c17;
 mod c18;
+mod c08;
 
 fn main() {
     let argv: Vec<String> = std::env::args().collect();
@@ -42,6 +43,7 @@ fn main() {
         "c03" => c03::run(&a),
         "c17" => c17::run(&a),
         "c18" => c18::run(&a),
+        "c08" => c08::run(&a),
         x => { eprintln!("unknown subcommand {x}"); std::process::exit(2); }
     }
 }
